@@ -687,6 +687,7 @@ fn new_run_state(rs: &RunSpec, n: usize, built: &Built) -> RunState {
         polls: 0,
         last_pending: false,
         settled: true,
+        handouts_started: true,
         self_yields_in_poll: 0,
         intr_tx: None,
         signals_left: rs.signals,
@@ -977,7 +978,7 @@ async fn drive_async<'g>(
                     }
                     if rs.signals_left > 0
                         && rs.intr_tx.is_some()
-                        && (rs.family_counts_calls_exactly || rs.settled || rs.spec.signals_anytime)
+                        && (rs.family_counts_calls_exactly || rs.handouts_started || rs.spec.signals_anytime)
                     {
                         actions.push(Action::Interrupt);
                     }
@@ -1389,6 +1390,8 @@ async fn poll_run<'g>(
     };
     w.polling.set(None);
     drop(waker);
+    // wake-ups signalled while the poll itself ran (not the ones tokio deferred)
+    let woken_in_poll = cell.woken.get();
     if coop {
         // wake-ups deferred by an exhausted budget are delivered when the runtime gets
         // control; only then is "no wake-up outstanding" meaningful
@@ -1415,6 +1418,7 @@ async fn poll_run<'g>(
                 let rs = &mut runs[r];
                 rs.last_pending = true;
                 rs.settled = settled;
+                rs.handouts_started = woken_in_poll == 0;
                 if rs.self_yields_in_poll > 0 {
                     w.fire("self_yield");
                 }
@@ -1434,6 +1438,7 @@ async fn poll_run<'g>(
             let rs = &mut runs[r];
             rs.last_pending = false;
             rs.settled = cell.woken.get() == 0;
+            rs.handouts_started = woken_in_poll == 0;
             // a Ready(Some) means the consumer will poll again: keep it runnable
             match item {
                 None => {
